@@ -12,6 +12,7 @@ from .sym import explore, Unsupported, ModelRaise, SB
 from .interp import Module
 
 VERIF = os.path.dirname(os.path.dirname(os.path.abspath(__file__)))
+OUT = os.environ.get("VERIF_OUT", VERIF)  # development aid: evidence/replays of runs against a scratch tree go elsewhere
 
 
 class Obl:
@@ -250,7 +251,7 @@ class Check:
                     o.result = res2[o.name]
 
     def _write_replay(self, tag, body):
-        d = os.path.join(VERIF, "replays")
+        d = os.path.join(OUT, "replays")
         os.makedirs(d, exist_ok=True)
         h = hashlib.sha256(json.dumps(body, default=str, sort_keys=True).encode()).hexdigest()[:10]
         safe = "".join(ch if ch.isalnum() or ch in "-_." else "_" for ch in tag)[:120]
@@ -409,8 +410,8 @@ class Check:
             "assumptions": sorted(set(BASE_ASSUMPTIONS) | set(extra_assumptions) | self.assumptions),
             "wall_s": round(wall, 2), "violations": len(self.violations),
         }
-        os.makedirs(os.path.join(VERIF, "evidence"), exist_ok=True)
-        with open(os.path.join(VERIF, "evidence", f"{self.prop}.json"), "w") as f:
+        os.makedirs(os.path.join(OUT, "evidence"), exist_ok=True)
+        with open(os.path.join(OUT, "evidence", f"{self.prop}.json"), "w") as f:
             json.dump(ev, f, indent=1, default=str)
         # verdict lines
         seen = set()
